@@ -12,7 +12,7 @@ META = {
     'assumptions': ['not generated (undocumented): a local and a const of one name in the same block, a local named like a parameter in the function body block, use of a name in its own initialiser'],
     'floors': {'enum_colour_programs': 30, 'enum_colour_after_padding': 5, 'redefined_alias_programs': 15, 'file_collision_programs': 20, 'file_alias_collisions': 10, 'two_language_programs': 20, 'renamed_compiles_identical': 10, 'partitions_matched': 150, 'expected_errors_rejected': 40, 'renamings_compared': 40, 'shadowing_programs': 50},
 }
-SIZES = {'quick': 1500, 'thorough': 40000}
+SIZES = {'quick': 4500, 'thorough': 40000}
 UNIQ_RE = re.compile(r'\b(' + '|'.join(S.VARPOOL + S.FUNCPOOL + S.ALIASES + S.INS_ALIASES) + r')_(\d+)\b')
 LANG = {'kind': 'test', 'language': 'anm', 'int_regs': [1000, 1001, 1002, 1003], 'float_regs': [], 'game': 'th10'}
 
